@@ -174,8 +174,30 @@ func (r *Run) Inconclusive(why string) {
 	r.mu.Unlock()
 }
 
+// clientTimeoutText recognises the harness's own client-side time limits (lib.Ctx expiry, http.Client.Timeout) in a
+// verdict text: "the answer did not arrive in time" on a loaded machine is not an observation about the server.
+func clientTimeoutText(s string) bool {
+	for _, m := range []string{"context deadline exceeded", "DeadlineExceeded", "Client.Timeout exceeded", "i/o timeout"} {
+		if strings.Contains(s, m) {
+			return true
+		}
+	}
+	return false
+}
+
 // Violation records a refuting observation. key is the stable finding key.
 func (r *Run) Violation(key, what string, detail any) {
+	// Backstop for the contract "expiry of a harness time limit is inconclusive, never a verdict": for every property
+	// that is not itself about hanging (C07, C12, C14, C16 drive stalls and deadlines on purpose and use persistent-state
+	// oracles), a verdict whose text reports a client-side timeout is recorded as inconclusive.
+	switch r.ID {
+	case "C07", "C12", "C14", "C16":
+	default:
+		if clientTimeoutText(what) {
+			r.Inconclusive("client-side time limit expired (machine load?) in what would have been reported as " + key + ": " + what)
+			return
+		}
+	}
 	r.mu.Lock()
 	defer r.mu.Unlock()
 	if k, ok := r.known[key]; ok {
